@@ -10,16 +10,17 @@ MANIFEST = dict(
 
 MODULES = ["Gozod.Proofs.C20"]
 REGEX_FORMATS = ["ipv4", "hex", "e164", "mac", "macdash", "base64", "uuid", "uuidv4", "uuidv6", "uuidv7", "guid"]
+OPTION_JOBS = ["macdot"] + ["tmo_" + p for p in "nm01239"]
 THEOREMS = (["Gozod.C20.bisim_sound", "Gozod.C20.bisim_sound_full"]
     + ["Gozod.C20.c20_%s" % f for f in REGEX_FORMATS] + ["Gozod.C20.c20_%s_pattern" % f for f in REGEX_FORMATS]
     + ["Gozod.C20.c20_cidrv4_pattern", "Gozod.C20.c20_cidrv4", "Gozod.C20.isoDate_quot", "Gozod.C20.c20_isodate_pattern",
        "Gozod.C20.c20_isodatetime_pattern_optsec", "Gozod.C20.c20_isodatetime_pattern_partial", "Gozod.C20.c20_isodatetime_pattern_witness",
-       "Gozod.C20.c20_isodatetime_goparse_witness", "Gozod.C20.c20_base64url_pattern_partial", "Gozod.C20.c20_base64url_pattern_witness"])
+       "Gozod.C20.c20_isodatetime_goparse_witness",] + ["Gozod.C20.c20_%s" % j for j in OPTION_JOBS] + [ "Gozod.C20.c20_base64url_pattern_partial", "Gozod.C20.c20_base64url_pattern_witness"])
 
 # certificate job -> format name of the correspondence
 JOB_FORMAT = {"isodatetime_optsec": "isodatetime", "isodatetime_partial": "isodatetime", "base64url_partial": "base64url"}
 # jobs whose certificate the proof module imports (a `differ` there breaks a theorem)
-REQUIRED_JOBS = set(REGEX_FORMATS) | {"cidrv4", "isodate", "isodatetime_optsec", "isodatetime_partial", "base64url_partial"}
+REQUIRED_JOBS = set(REGEX_FORMATS) | {"cidrv4", "isodate", "isodatetime_optsec", "isodatetime_partial", "base64url_partial"} | set(OPTION_JOBS)
 
 GEN = os.path.join(C.LEAN, "Gozod", "Gen")
 
@@ -68,10 +69,25 @@ def key(op, impl, M, S):
     if impl[0] != S[0]: sides.append("validator-accepts" if impl[0] == "1" else "validator-rejects")
     if impl[1] != S[1]: sides.append("pattern-accepts" if impl[1] == "1" else "pattern-rejects")
     if not sides: sides = ["model-drift"]
+    fam = fmt.split("_")[0]
+    if fam in ("dto", "tmo") and impl[0] == S[0]:
+        # the check exports regex.DefaultDatetime / regex.DefaultTime whatever the options are
+        return fam + ":exported-pattern-ignores-options"
     return "%s:%s:%s" % (fmt, "+".join(sides), classify(fmt, s))
+
+PREC = {"n": "nil", "m": "PrecisionMinute(-1)", "0": "PrecisionSecond(0)"}
 
 def describe(op):
     t = C.op_body(op).split(" ")
+    f = t[1].split("_")
+    if f[0] in ("dto", "tmo"):
+        prec = PREC.get(f[1], f[1])
+        ctor = ("gozod.IsoDateTime(gozod.IsoDatetimeOptions{Precision: %s, Offset: %s, Local: %s})" % (prec, f[2] == "1", f[3] == "1")
+                if f[0] == "dto" else "gozod.IsoTime(gozod.IsoTimeOptions{Precision: %s})" % prec)
+        order = C.op_comment(op).split(":")[-1]
+        return ("%s.Parse(%r) — all option variants of the constructor are used interleaved in ONE process, variants taken in %s order "
+                "(fwd: precision nil,-1,0,1,2,3,9 x offset x local as listed in formats.go; rev: the reverse, in a second process): "
+                "the verdict depends on which variant was validated first" % (ctor, unhex(t[2]).decode("latin-1"), "reverse" if order == "rev" else "forward"))
     return "gozod.<%s constructor>().Parse(%r); pattern = jsonschema.ToJSONSchema(schema).Pattern matched with Go regexp" % (t[1], unhex(t[2]).decode("latin-1"))
 
 def run_harness(res, extra_cases):
@@ -92,6 +108,12 @@ def run_harness(res, extra_cases):
     d = os.path.join(rundir, "gen"); os.makedirs(d)
     rc, out = C.run([C.harness_bin("C20"), "-seed", str(res.seed), "-tier", res.tier, "-out", d], env=env, timeout=7200)
     if rc != 0: return None, "harness failed rc=%d\n%s" % (rc, out[-3000:])
+    dirs.append(d)
+    # the option families once more in a fresh process with the variants used in the reverse order
+    # (process-wide state such as a regex cache makes the verdicts depend on which variant came first)
+    d = os.path.join(rundir, "rev"); os.makedirs(d)
+    rc, out = C.run([C.harness_bin("C20"), "-seed", str(res.seed), "-tier", res.tier, "-out", d, "-onlyopt", "-optorder", "rev"], env=env, timeout=7200)
+    if rc != 0: return None, "harness (reverse option order) failed rc=%d\n%s" % (rc, out[-3000:])
     dirs.append(d)
     ops, impl, model = [], [], []
     stats = {}
